@@ -20,3 +20,8 @@ package rawdb
 //@   ensures r == valsInfoAt(db, hash)
 //@ trusted func ReadConsensusParamsInfo(db kaidb.Reader, hash common.Hash) (r *kstate.ConsensusParamsInfo)
 //@   ensures r == paramsInfoAt(db, hash)
+
+// Deleting a record changes nothing that is modelled (the readers above stay functions of the
+// database value and the key; PruneState never re-reads a key it deleted).
+//@ trusted func DeleteConsensusStateHeight(db kaidb.KeyValueWriter, height uint64) (err error)
+//@ trusted func DeleteConsensusValidatorsInfo(db kaidb.KeyValueWriter, hash common.Hash) (err error)
